@@ -22,6 +22,8 @@ import os
 import random
 
 from lib import cmd, import_impl
+import fam_streams as S
+from fam_streams import arg
 
 
 # --------------------------------------------------------------------------
@@ -65,6 +67,15 @@ def mk_graph(n, edges):
     for u, v in edges:
         G.add_edge(u, v)
     return G
+
+
+def on_graph(p, key, plain, call):
+    """call(G, overrides) on the graph argument of p: built by `plain()` or, for the history stream
+    (p[key] is a list of public API calls, see fam_streams), by replaying them -- the generator is then
+    called on the same object at every 'gen' op and the value of the last call is returned."""
+    if key in p:
+        return S.replay(p[key], call)
+    return call(plain(), {})
 
 
 def mk_dag(n, edges):
@@ -135,7 +146,8 @@ def op_params(rng, tier):
 
 def op_build(p, fc):
     from cnfgen.families.ordering import OrderingPrinciple
-    return OrderingPrinciple(p['n'], total=p['total'], smart=p['smart'], plant=p['plant'], knuth=p['knuth'], formula_class=fc)
+    return OrderingPrinciple(p['n'], total=arg(p, 'total'), smart=arg(p, 'smart'), plant=arg(p, 'plant'), knuth=arg(p, 'knuth'),
+                             formula_class=fc)
 
 
 def op_request(p):
@@ -259,8 +271,11 @@ def gop_params(rng, tier):
 
 def gop_build(p, fc):
     from cnfgen.families.ordering import GraphOrderingPrinciple
-    return GraphOrderingPrinciple(mk_graph(p['n'], p['edges']), total=p['total'], smart=p['smart'],
-                                  plant=p['plant'], knuth=p['knuth'], formula_class=fc)
+    def call(G, over):
+        q = dict(p, **over)
+        return GraphOrderingPrinciple(G, total=arg(q, 'total'), smart=arg(q, 'smart'), plant=arg(q, 'plant'),
+                                      knuth=arg(q, 'knuth'), formula_class=fc)
+    return on_graph(p, 'ops', lambda: mk_graph(p['n'], p['edges']), call)
 
 
 def gop_request(p):
@@ -303,7 +318,7 @@ def peb_params(rng, tier):
 
 def peb_build(p, fc):
     from cnfgen.families.pebbling import PebblingFormula
-    return PebblingFormula(mk_dag(p['n'], p['edges']), formula_class=fc)
+    return on_graph(p, 'ops', lambda: mk_dag(p['n'], p['edges']), lambda D, over: PebblingFormula(D, formula_class=fc))
 
 
 def peb_request(p):
@@ -334,7 +349,8 @@ def stone_params(rng, tier):
 
 def stone_build(p, fc):
     from cnfgen.families.pebbling import StoneFormula
-    return StoneFormula(mk_dag(p['n'], p['edges']), p['stones'], formula_class=fc)
+    return on_graph(p, 'ops', lambda: mk_dag(p['n'], p['edges']),
+                    lambda D, over: StoneFormula(D, over.get('stones', p['stones']), formula_class=fc))
 
 
 def stone_request(p):
@@ -373,7 +389,11 @@ def sstone_params(rng, tier):
 
 def sstone_build(p, fc):
     from cnfgen.families.pebbling import SparseStoneFormula
-    return SparseStoneFormula(mk_dag(p['n'], p['edges']), mk_bip(p.get('left', p['n']), p['R'], p['bedges']), formula_class=fc)
+    if 'bops' in p:       # history of the mapping graph, the DAG is one object for all the calls
+        D = mk_dag(p['n'], p['edges'])
+        return S.replay(p['bops'], lambda B, over: SparseStoneFormula(D, B, formula_class=fc))
+    B = mk_bip(p.get('left', p['n']), p['R'], p['bedges'])
+    return on_graph(p, 'ops', lambda: mk_dag(p['n'], p['edges']), lambda D, over: SparseStoneFormula(D, B, formula_class=fc))
 
 
 def sstone_request(p):
@@ -488,6 +508,9 @@ def pitfall_alternatives(p):
     """model variants the implementation may agree with, documented ones first.  `*_unvalidated` is the
     argument handling before commit cc7a963 (d = v -> NetworkXError, nz = 1 -> IndexError): outside the
     hypotheses of C03 (reported under C18), accepted silently here."""
+    if p.get('stream'):       # valid arguments only: the *_unvalidated variants build the same formula
+        return [dict(label='spec', request=_pitfall_req('spec', p), finding=None),
+                dict(label='as_is', request=_pitfall_req('as_is', p), finding=PITFALL_FINDING)]
     return [dict(label='spec', request=_pitfall_req('spec', p), finding=None),
             dict(label='spec_unvalidated', request=_pitfall_req('spec_unvalidated', p), finding=None),
             dict(label='as_is', request=_pitfall_req('as_is', p), finding=PITFALL_FINDING),
@@ -654,34 +677,264 @@ def no_object(p):
     return False
 
 
+
+# --------------------------------------------------------------------------
+# threshold / shape / history streams (notes/LARGE_STREAMS.md, harness/fam_streams.py)
+# --------------------------------------------------------------------------
+def _st(ps, stream):
+    for q in ps:
+        q['stream'] = stream
+        q['large'] = True
+    return ps
+
+
+def _flagdicts(fl):
+    return [dict(total=t, smart=s, plant=pl, knuth=kn) for (t, s, pl, kn) in fl]
+
+
+KNUTH_OTHER = [1, 4, 7, -3, None, '2', [2]]      # "anything else suppresses it"
+
+
+def op_streams(rng, tier):
+    quick = tier == 'quick'
+    out = []
+    for n in (15, 16, 17):
+        out += [dict(n=n, **f) for f in _flagdicts(FLAGS)]
+    for n in (31, 32, 33, 40):
+        out += [dict(n=n, only=['CNF'], **f) for f in _flagdicts(rng.sample(FLAGS, 1 if quick else 8))]
+    if not quick:
+        for n in range(8, 25):
+            if n not in (15, 16, 17):
+                out += [dict(n=n, **f) for f in _flagdicts(FLAGS)]
+    _st(out, 'thresholds')
+    sh = S.flag_shapes(rng, ['total', 'smart', 'plant'], [dict(n=n, knuth=kn) for n in (3, 4, 5, 6) for kn in (0, 2, 3)],
+                       per_value=1 if quick else 3)
+    for kv in KNUTH_OTHER:
+        for f in _flagdicts(rng.sample(FLAGS, 2 if quick else 6)):
+            sh.append(dict(f, n=rng.randint(3, 6), knuth=0, raw=dict(knuth=kv)))
+    return out + _st(sh, 'shapes')
+
+
+def gop_streams(rng, tier):
+    quick = tier == 'quick'
+    out = []
+    graphs = [(17, S.star(17)), (16, S.star(16, hub=16)), (33, S.star(33, hub=17)), (17, S.path(17)), (16, S.cycle(16)),
+              (16, S.two_cycles(8)), (18, S.two_cycles(8)), (17, []), (15, S.complete_minus(15, [[1, 15], [7, 8]])),
+              (33, S.hub_on_path(33, 17, hub=33))]
+    for (n, es) in graphs:
+        for f in _flagdicts(rng.sample(FLAGS, 3 if quick else 10)):
+            out.append(dict(n=n, edges=es, **f))
+    if not quick:
+        for (n, es) in ((40, S.star(40)), (40, S.cycle(40))):
+            for f in _flagdicts(rng.sample(FLAGS, 4)):
+                out.append(dict(n=n, edges=es, only=['CNF'], **f))
+    _st(out, 'thresholds')
+    sh = S.flag_shapes(rng, ['total', 'smart', 'plant'],
+                       [dict(n=n, edges=random_graph_edges(rng, n, 0.5), knuth=kn) for n in (3, 4, 5) for kn in (0, 2, 3)],
+                       per_value=1 if quick else 3)
+    for kv in KNUTH_OTHER:
+        n = rng.randint(3, 6)
+        sh.append(dict(rng.choice(_flagdicts(FLAGS)), n=n, edges=random_graph_edges(rng, n, 0.5), knuth=0, raw=dict(knuth=kv)))
+    hist = []
+    for i in range(6 if quick else 60):
+        phases = S.simple_history(rng)
+        for ops, fl, st in S.history_points(phases, _flagdicts(rng.sample(FLAGS, 3))):
+            n, es = S.simple_fields(st)
+            hist.append(dict(fl, n=n, edges=es, ops=ops))
+    return out + _st(sh, 'shapes') + _st(hist, 'history')
+
+
+def _dag_path(n):
+    return [[v, v + 1] for v in range(1, n)]
+
+
+def _sink_hub(n):
+    return [[u, n] for u in range(1, n)]
+
+
+def _src_hub(n):
+    return [[1, v] for v in range(2, n + 1)]
+
+
+def _dag_hist(rng, count, extra):
+    out = []
+    for i in range(count):
+        phases = S.dag_history(rng)
+        for ops, fl, st in S.history_points(phases, []):
+            out.append(dict(extra(), n=st['n'], edges=sorted(list(e) for e in st['edges']), ops=ops))
+    return out
+
+
+def peb_streams(rng, tier):
+    out = [dict(n=n, edges=_dag_path(n)) for n in S.TH]
+    out += [dict(n=d + 1, edges=_sink_hub(d + 1)) for d in S.TH[:13]]             # in-degree = threshold
+    out += [dict(n=d + 1, edges=_src_hub(d + 1)) for d in (16, 17, 128, 129, 256, 257)]
+    for h in (15, 16, 17, 22, 44):
+        n, e = pyramid_edges(h)
+        out.append(dict(n=n, edges=e))
+    out.append(dict(n=300, edges=[]))                                              # isolated vertices only
+    out.append(dict(n=260, edges=_dag_path(130) + [[u + 130, v + 130] for u, v in _dag_path(130)]))   # two equal components
+    _st(out, 'thresholds')
+    return out + _st(_dag_hist(rng, 8 if tier == 'quick' else 80, dict), 'history')
+
+
+def stone_streams(rng, tier):
+    out = [dict(n=n, edges=_dag_path(n), stones=2) for n in (15, 16, 17, 64, 65, 128, 129, 257, 300)]
+    out += [dict(n=3, edges=_dag_path(3), stones=s) for s in (15, 16, 17, 33)]
+    out += [dict(n=2, edges=[[1, 2]], stones=s) for s in (63, 64, 65)]
+    out += [dict(n=d + 1, edges=_sink_hub(d + 1), stones=1) for d in (15, 16, 17, 64, 128, 129, 256, 257)]
+    out += [dict(n=6, edges=_sink_hub(6), stones=3), dict(n=300, edges=[], stones=1), dict(n=17, edges=[], stones=17)]
+    _st(out, 'thresholds')
+    return out + _st(_dag_hist(rng, 6 if tier == 'quick' else 60, lambda: dict(stones=rng.randint(0, 3))), 'history')
+
+
+def sstone_streams(rng, tier):
+    out = []
+    for n in (15, 16, 17, 65, 129, 257, 300):
+        out.append(dict(n=n, edges=_dag_path(n), R=4, bedges=sorted([v, 1 + (v % 4)] for v in range(1, n + 1)) ))
+    for R in (15, 16, 17, 64, 65, 129, 256, 257, 1025):
+        js = sorted({1, 2, R // 2, R - 1, R})
+        out.append(dict(n=3, edges=[[1, 2], [1, 3], [2, 3]], R=R, bedges=[[v, j] for v in range(1, 4) for j in js if 1 <= j]))
+    out.append(dict(n=2, edges=[[1, 2]], R=17, bedges=[[v, j] for v in (1, 2) for j in range(1, 18)]))       # degree 17
+    out.append(dict(n=3, edges=[[1, 3], [2, 3]], R=129, bedges=[[1, j] for j in range(1, 130)] + [[2, 1], [3, 129]]))
+    out.append(dict(n=4, edges=[[1, 2]], R=5, bedges=[]))                                                   # empty mapping
+    out.append(dict(n=20, edges=_sink_hub(20), R=1, bedges=[[v, 1] for v in range(1, 21)]))
+    _st(out, 'thresholds')
+    hist = []
+    for i in range(6 if tier == 'quick' else 60):
+        # history of the DAG, fixed mapping graph
+        phases = S.dag_history(rng, n=rng.randint(1, 5))
+        n = phases[0][0][1]
+        R = rng.randint(0, 3)
+        bed = [[v, j] for v in range(1, n + 1) for j in range(1, R + 1) if rng.random() < 0.6]
+        for ops, fl, st in S.history_points(phases, []):
+            hist.append(dict(n=n, edges=sorted(list(e) for e in st['edges']), R=R, bedges=bed, ops=ops))
+        # history of the mapping graph, fixed DAG
+        n = rng.randint(1, 5)
+        ed = random_dag(rng, n, 0.4)
+        phases = S.bipartite_history(rng, L=n, R=rng.randint(0, 3))
+        for ops, fl, st in S.history_points(phases, []):
+            hist.append(dict(n=n, edges=ed, R=st['R'], bedges=sorted(list(e) for e in st['edges']), bops=ops))
+    return out + _st(hist, 'history')
+
+
+def cpls_streams(rng, tier):
+    trip = [(15, 2, 2), (16, 2, 2), (17, 2, 2), (63, 1, 2), (64, 2, 1), (65, 1, 1), (127, 1, 1), (128, 2, 2), (129, 1, 2), (255, 1, 1),
+            (256, 1, 1), (257, 2, 1), (258, 1, 1), (300, 1, 1), (1, 16, 16), (2, 32, 2), (1, 64, 1), (1, 128, 1), (1, 256, 1), (2, 2, 32),
+            (1, 1, 64), (1, 2, 128), (1, 1, 256), (1, 1, 1024), (1, 1024, 1)]
+    if tier != 'quick':
+        trip += [(2, 64, 2), (3, 8, 64), (2, 16, 16), (1000, 1, 1), (1025, 2, 2), (2, 2, 1024)]
+    return _st([dict(a=a, b=b, c=c) for (a, b, c) in trip], 'thresholds')
+
+
+def pitfall_streams(rng, tier):
+    shapes = [(16, 3, 2, 2, 2), (17, 2, 2, 2, 2), (17, 4, 3, 2, 2), (34, 3, 2, 2, 2), (65, 2, 2, 2, 2), (64, 3, 2, 3, 2),
+              (6, 3, 15, 2, 2), (6, 3, 16, 2, 2), (6, 3, 17, 2, 2), (6, 3, 2, 15, 2), (6, 3, 2, 16, 2), (6, 3, 2, 17, 2), (4, 2, 2, 65, 2),
+              (6, 3, 2, 2, 16), (6, 3, 2, 2, 18), (4, 3, 2, 2, 64), (10, 9, 2, 2, 2), (9, 8, 2, 2, 2)]
+    if tier != 'quick':
+        shapes += [(130, 3, 2, 2, 2), (4, 2, 3, 3, 130), (258, 3, 2, 2, 2), (257, 2, 2, 2, 2), (300, 3, 2, 2, 2), (6, 3, 33, 2, 2), (6, 3, 2, 129, 2), (4, 3, 2, 2, 258)]
+    out = []
+    for (v, d, ny, nz, k) in shapes:
+        seed = rng.randint(1, 10 ** 6)
+        out.append(dict(v=v, d=d, ny=ny, nz=nz, k=k, seed=seed, edges=draw_regular(seed, d, v)))
+    return _st(out, 'thresholds')
+
+
+def ram_streams(rng, tier):
+    top = 10 if tier == 'quick' else 12
+    out = [dict(s=s, k=k, N=N) for N in range(7 if tier == 'quick' else 8, top + 1) for s in range(1, 6) for k in range(1, 6)]
+    out += [dict(s=s, k=k, N=N) for N in range(0, 7) for s in range(1, 6) for k in range(1, 6) if s == 5 or k == 5]
+    out += [dict(s=2, k=2, N=N) for N in (15, 16, 17, 23, 24)] + [dict(s=1, k=2, N=N) for N in (63, 64, 65)]
+    out += [dict(s=s, k=3, N=N) for (s, N) in ((15, 16), (16, 16), (17, 16), (17, 17), (18, 17))]
+    if tier != 'quick':
+        out += [dict(s=2, k=2, N=N) for N in (32, 33, 64, 65)] + [dict(s=1, k=1, N=N) for N in (129, 257)]
+    return _st(out, 'thresholds')
+
+
+def vdw_streams(rng, tier):
+    """two colours: every N <= 130 with the lengths k around the boundaries of the generator (k = N, N+1, k-1 dividing
+    N-1, k-1 >= 49); the second length is small.  Thorough: EVERY 1 <= k <= N+1.  A sample with three colours."""
+    quick = tier == 'quick'
+    out, seen = [], set()
+
+    def put(N, ks, **kw):
+        key = (N, tuple(ks))
+        if key not in seen:
+            seen.add(key)
+            lits = sum(k * sum(max(0, N - d * (k - 1)) for d in range(1, (N - 1) // (k - 1) + 1)) for k in ks if k > 1)
+            if lits > 1500 and quick and (N + ks[0]) % 4:
+                kw['only'] = ['CNF']
+            out.append(dict(N=N, ks=list(ks), **kw))
+    for N in range(1, 131):
+        for k in range(1, N + 2):
+            special = (k in (N, N + 1) or (k >= 3 and (N - 1) % (k - 1) == 0 and (k >= 6 or N <= 45))
+                       or (k >= 50 and (N + k) % 11 == 0))
+            if not quick or special:
+                k2 = (1, N, N + 1, 2 if N <= 40 else N - 1, 3 if N <= 60 else N)[(N + k) % 5]
+                if (N + k) % 2:
+                    put(N, [k, k2])
+                else:
+                    put(N, [k2, k])
+    for N in (16, 17, 64, 65, 128, 129):
+        put(N, [2, 2])
+        put(N, [3, 2])
+        put(N, [1, 1])
+    # beyond 256: the cost of one instance is about N^2/2 literals whatever k is, unless k is close to N
+    for N in (256, 257, 300) if quick else (255, 256, 257, 258, 300):
+        for k in sorted({3, 17, 50, 86, 128, 129, 130, N // 2 + 1, N - 1, N, N + 1}):
+            put(N, [k, 1] if k % 2 else [N, k], only=['CNF'])
+    for N in (1000, 1025):
+        for k in (N - 16, N - 1, N, N + 1) + ((513,) if N == 1025 else ()):
+            put(N, [k, N], only=['CNF'])
+    for _ in range(60 if quick else 600):
+        N = rng.randint(1, 80)
+        ks = [rng.choice([1, 2, 3, 4, 5, N // 2, N // 2 + 1, N - 1, N, N + 1, rng.randint(1, N + 1)]) for _ in range(rng.choice([3, 3, 4]))]
+        ks = [max(1, k) for k in ks]
+        if sum(N * N // max(1, 2 * (k - 1)) for k in ks) < 4000:
+            put(N, ks)
+    return _st(out, 'thresholds')
+
+
+def ptn_streams(rng, tier):
+    """the model itself (Z.sqrt on binary numbers, quadratic) on a few threshold sizes (and, in c03.ptn_dense, on every N <= 120); the dense
+    enumeration of every N up to PTN_DENSE is done by c03.ptn_dense against ONE model call (see there)"""
+    ns = [255, 256, 257, 258, 300]
+    if tier != 'quick':
+        ns += list(range(121, 151)) + [400, 500, 650, 700]
+    return _st([dict(N=N) for N in ns], 'thresholds')
+
+
+PTN_DENSE = dict(quick=500, thorough=1000)
+
 FAMILIES = [
-    dict(name='op', prop='C03', kind='planted', impl='OrderingPrinciple', params=op_params, build=op_build, request=op_request,
+    dict(name='op', prop='C03', streams=op_streams, kind='planted', impl='OrderingPrinciple', params=op_params, build=op_build, request=op_request,
          numvar_doc=op_numvar, decode_ok=gop_decode_ok, exists=gop_exists, cli=op_cli),
-    dict(name='gop', prop='C03', kind='planted', impl='GraphOrderingPrinciple', params=gop_params, build=gop_build, request=gop_request,
+    dict(name='gop', prop='C03', streams=gop_streams, kind='planted', impl='GraphOrderingPrinciple', params=gop_params, build=gop_build, request=gop_request,
          numvar_doc=op_numvar, decode_ok=gop_decode_ok, exists=gop_exists, cli=gop_cli),
-    dict(name='peb', prop='C03', kind='contradiction', impl='PebblingFormula', params=peb_params, build=peb_build, request=peb_request,
+    dict(name='peb', prop='C03', streams=peb_streams, kind='contradiction', impl='PebblingFormula', params=peb_params, build=peb_build, request=peb_request,
          numvar_doc=lambda p: p['n'], decode_ok=never, exists=no_object, cli=peb_cli),
-    dict(name='stone', prop='C03', kind='contradiction', impl='StoneFormula', params=stone_params, build=stone_build, request=stone_request,
+    dict(name='stone', prop='C03', streams=stone_streams, kind='contradiction', impl='StoneFormula', params=stone_params, build=stone_build, request=stone_request,
          numvar_doc=stone_numvar, decode_ok=never, exists=no_object, cli=stone_cli),
-    dict(name='sstone', prop='C03', kind='contradiction', impl='SparseStoneFormula', params=sstone_params, build=sstone_build,
+    dict(name='sstone', prop='C03', streams=sstone_streams, kind='contradiction', impl='SparseStoneFormula', params=sstone_params, build=sstone_build,
          request=sstone_request, numvar_doc=sstone_numvar, decode_ok=never, exists=no_object, cli=lambda p, t: None),
-    dict(name='cpls', prop='C03', kind='contradiction', impl='CPLSFormula', params=cpls_params, build=cpls_build,
+    dict(name='cpls', prop='C03', streams=cpls_streams, kind='contradiction', impl='CPLSFormula', params=cpls_params, build=cpls_build,
          request=lambda p: cmd('fam_cpls', p['a'], p['b'], p['c']), numvar_doc=cpls_numvar, decode_ok=never, exists=no_object,
          cli=lambda p, t: None if p.get('malformed') else ['cpls', str(p['a']), str(p['b']), str(p['c'])]),
-    dict(name='pitfall', prop='C03', kind='contradiction', impl='PitfallFormula', params=pitfall_params, build=pitfall_build,
+    dict(name='pitfall', prop='C03', streams=pitfall_streams, kind='contradiction', impl='PitfallFormula', params=pitfall_params, build=pitfall_build,
          request=pitfall_request, request_spec=pitfall_request_spec, alternatives=pitfall_alternatives,
          numvar_doc=pitfall_numvar, decode_ok=never, exists=no_object, cli=pitfall_cli),
-    dict(name='ram', prop='C03', kind='ramsey', impl='RamseyNumber', params=ram_params, build=ram_build,
+    dict(name='ram', prop='C03', streams=ram_streams, kind='ramsey', impl='RamseyNumber', params=ram_params, build=ram_build,
          request=lambda p: cmd('fam_ram', p['s'], p['k'], p['N']), numvar_doc=lambda p: p['N'] * (p['N'] - 1) // 2,
          decode_ok=ram_decode_ok, exists=ram_exists, cli=lambda p, t: ['ram', str(p['s']), str(p['k']), str(p['N'])]),
-    dict(name='vdw', prop='C03', kind='ramsey', impl='VanDerWaerden', params=vdw_params, build=vdw_build,
+    dict(name='vdw', prop='C03', streams=vdw_streams, kind='ramsey', impl='VanDerWaerden', params=vdw_params, build=vdw_build,
          request=lambda p: cmd('fam_vdw', 'spec', p['N'], p['ks']), request_spec=lambda p: cmd('fam_vdw', 'spec', p['N'], p['ks']),
-         alternatives=lambda p: [dict(label='spec', request=cmd('fam_vdw', 'spec', p['N'], p['ks']), finding=None),
-                                 dict(label='as_is', request=cmd('fam_vdw', 'as_is', p['N'], p['ks']),
-                                      finding=dict(site='VanDerWaerden', cls='progression-length-1'))],
+         # the two variants differ only when some length is 1 (vdw_aps_spec N k = vdw_aps N k otherwise, by definition)
+         alternatives=lambda p: [dict(label='spec', request=cmd('fam_vdw', 'spec', p['N'], p['ks']), finding=None)] +
+                                ([dict(label='as_is', request=cmd('fam_vdw', 'as_is', p['N'], p['ks']),
+                                       finding=dict(site='VanDerWaerden', cls='progression-length-1'))] if 1 in p['ks'] else []),
          numvar_doc=vdw_numvar, decode_ok=vdw_decode_ok, exists=vdw_exists,
          cli=lambda p, t: ['vdw', str(p['N'])] + [str(k) for k in p['ks']]),
-    dict(name='ptn', prop='C03', kind='ramsey', impl='PythagoreanTriples', params=ptn_params, build=ptn_build,
+    dict(name='ptn', prop='C03', streams=ptn_streams, kind='ramsey', impl='PythagoreanTriples', params=ptn_params, build=ptn_build,
          request=lambda p: cmd('fam_ptn', p['N']), numvar_doc=lambda p: p['N'], decode_ok=ptn_decode_ok, exists=ptn_exists,
          cli=lambda p, t: ['ptn', str(p['N'])]),
 ]
